@@ -24,7 +24,7 @@ from ..algebra import run_trace_leg
 from . import c04
 
 LEVEL = 'model_checking'
-AUTO_PLACEMENTS = ['auto', 'auto_closure', 'auto_attr', 'auto_attr2', 'auto_method', 'auto_param', 'auto_param_method', 'auto_class_call', 'auto_wraps', 'auto_deco_noop', 'auto_param_default', 'auto_hint', 'auto_hint_partial', 'auto_carrier1', 'auto_carrier2']
+AUTO_PLACEMENTS = ['auto', 'auto_closure', 'auto_attr', 'auto_attr2', 'auto_method', 'auto_param', 'auto_param_method', 'auto_class_call', 'auto_relay', 'auto_wraps', 'auto_deco_noop', 'auto_param_default', 'auto_hint', 'auto_hint_partial', 'auto_carrier1', 'auto_carrier2']
 MINE = ('C05', 'C07')        # clause prefixes this check reports; C06_* clauses of the shared events belong to check C06
 
 
@@ -164,6 +164,8 @@ def run_shared(check, tier, seed, scratch, mine):
             fl = c04.written_flags(UO[a], UI[b], rnd)
             fl = dict(fl, partial=False) if rnd.random() < 0.9 else fl
             placement = AUTO_PLACEMENTS[k % len(AUTO_PLACEMENTS)]
+            if placement == 'auto_relay':
+                fl = dict(fl, partial=rnd.random() < 0.4)
             if k % nshards == shard:
                 yield c04.prog_event('grid/%d-%d-%d-%s' % (k, a, b, placement), UO[a], UI[b], fl, placement)
     run_trace_leg(check, scratch, 'one-call-grid', grid, None, module='Trace_Exec', describe=describe, classify=classify)
